@@ -449,26 +449,29 @@ fn str_ops(ctor: u8, m: &'static str, ops: [u8; 3], nops: usize) {
     str_run(0, nops, ops, Some(c), None, m, &arc);
 }
 // content: "" / "a" / "aé" (3 bytes, non-ASCII)
-fn str_content(ctor: u8, t: u8, ops: [u8; 3], nops: usize) {
+/// `set` is a literal per harness (0: only "aé", 1: only "" / "a", 2: all): contents outside the set are not even
+/// symbolically executed (an `assume` alone would still make CBMC encode them)
+fn str_content(ctor: u8, t: u8, set: u8, ops: [u8; 3], nops: usize) {
     match t {
-        0 => str_ops(ctor, "", ops, nops),
-        1 => str_ops(ctor, "a", ops, nops),
-        _ => str_ops(ctor, "a\u{e9}", ops, nops),
+        0 if set != 0 => str_ops(ctor, "", ops, nops),
+        1 if set != 0 => str_ops(ctor, "a", ops, nops),
+        2 if set != 1 => str_ops(ctor, "a\u{e9}", ops, nops),
+        _ => kani::assume(false),
     }
 }
 // construction class is fixed per harness (0 = borrowed ctors 0..2, 1 = owned ctors 3..5, 2 = shared ctors 6..7)
-fn str_class(class: u8, which: u8, t: u8, ops: [u8; 3], nops: usize) {
+fn str_class(class: u8, which: u8, t: u8, set: u8, ops: [u8; 3], nops: usize) {
     kani::assume(t < 3 && ops[0] < NOPS && ops[1] < NOPS && ops[2] < NOPS);
     kani::assume(which < if class == 2 { 2 } else { 3 });
     match (class, which) {
-        (0, 0) => str_content(0, t, ops, nops),
-        (0, 1) => str_content(1, t, ops, nops),
-        (0, _) => str_content(2, t, ops, nops),
-        (1, 0) => str_content(3, t, ops, nops),
-        (1, 1) => str_content(4, t, ops, nops),
-        (1, _) => str_content(5, t, ops, nops),
-        (_, 0) => str_content(6, t, ops, nops),
-        (_, _) => str_content(7, t, ops, nops),
+        (0, 0) => str_content(0, t, set, ops, nops),
+        (0, 1) => str_content(1, t, set, ops, nops),
+        (0, _) => str_content(2, t, set, ops, nops),
+        (1, 0) => str_content(3, t, set, ops, nops),
+        (1, 1) => str_content(4, t, set, ops, nops),
+        (1, _) => str_content(5, t, set, ops, nops),
+        (_, 0) => str_content(6, t, set, ops, nops),
+        (_, _) => str_content(7, t, set, ops, nops),
     }
 }
 
@@ -476,7 +479,7 @@ fn str_class(class: u8, which: u8, t: u8, ops: [u8; 3], nops: usize) {
 pub fn c14_str_read_body(ctor: u8, t: u8) {
     kani::assume(ctor < 8 && t < 3);
     let (class, which) = (ctor / 3, ctor % 3);
-    str_class(class, which, t, [0, 0, 0], 0);
+    str_class(class, which, t, 2, [0, 0, 0], 0);
     kani::cover!(ctor == 7 && t == 2);
 }
 #[cfg(kani)]
@@ -488,7 +491,7 @@ fn c14_str_read() {
 
 // quick: non-empty non-ASCII content, all 16 two-step sequences; thorough (`_all`): also "" and "a"
 pub fn c14_str_borrowed_body(which: u8, op1: u8, op2: u8) {
-    str_class(0, which, 2, [op1, op2, 0], 2);
+    str_class(0, which, 2, 0, [op1, op2, 0], 2);
 }
 #[cfg(kani)]
 #[kani::proof]
@@ -497,7 +500,7 @@ fn c14_str_borrowed() {
     c14_str_borrowed_body(kani::any(), kani::any(), kani::any());
 }
 pub fn c14_str_borrowed_3ops_body(which: u8, op1: u8, op2: u8, op3: u8) {
-    str_class(0, which, 2, [op1, op2, op3], 3);
+    str_class(0, which, 2, 0, [op1, op2, op3], 3);
 }
 #[cfg(kani)]
 #[kani::proof]
@@ -508,7 +511,7 @@ fn c14_str_borrowed_3ops() {
 
 pub fn c14_str_borrowed_all_body(which: u8, t: u8, op1: u8, op2: u8) {
     kani::assume(t < 2);
-    str_class(0, which, t, [op1, op2, 0], 2);
+    str_class(0, which, t, 1, [op1, op2, 0], 2);
 }
 #[cfg(kani)]
 #[kani::proof]
@@ -519,7 +522,7 @@ fn c14_str_borrowed_all() {
 
 // quick: non-empty non-ASCII content, all 16 two-step sequences; thorough (`_all`): also "" and "a"
 pub fn c14_str_owned_body(which: u8, op1: u8, op2: u8) {
-    str_class(1, which, 2, [op1, op2, 0], 2);
+    str_class(1, which, 2, 0, [op1, op2, 0], 2);
 }
 #[cfg(kani)]
 #[kani::proof]
@@ -528,7 +531,7 @@ fn c14_str_owned() {
     c14_str_owned_body(kani::any(), kani::any(), kani::any());
 }
 pub fn c14_str_owned_3ops_body(which: u8, op1: u8, op2: u8, op3: u8) {
-    str_class(1, which, 2, [op1, op2, op3], 3);
+    str_class(1, which, 2, 0, [op1, op2, op3], 3);
 }
 #[cfg(kani)]
 #[kani::proof]
@@ -539,7 +542,7 @@ fn c14_str_owned_3ops() {
 
 pub fn c14_str_owned_all_body(which: u8, t: u8, op1: u8, op2: u8) {
     kani::assume(t < 2);
-    str_class(1, which, t, [op1, op2, 0], 2);
+    str_class(1, which, t, 1, [op1, op2, 0], 2);
 }
 #[cfg(kani)]
 #[kani::proof]
@@ -550,7 +553,7 @@ fn c14_str_owned_all() {
 
 // quick: non-empty non-ASCII content, all 16 two-step sequences; thorough (`_all`): also "" and "a"
 pub fn c14_str_shared_body(which: u8, op1: u8, op2: u8) {
-    str_class(2, which, 2, [op1, op2, 0], 2);
+    str_class(2, which, 2, 0, [op1, op2, 0], 2);
 }
 #[cfg(kani)]
 #[kani::proof]
@@ -559,7 +562,7 @@ fn c14_str_shared() {
     c14_str_shared_body(kani::any(), kani::any(), kani::any());
 }
 pub fn c14_str_shared_3ops_body(which: u8, op1: u8, op2: u8, op3: u8) {
-    str_class(2, which, 2, [op1, op2, op3], 3);
+    str_class(2, which, 2, 0, [op1, op2, op3], 3);
 }
 #[cfg(kani)]
 #[kani::proof]
@@ -570,7 +573,7 @@ fn c14_str_shared_3ops() {
 
 pub fn c14_str_shared_all_body(which: u8, t: u8, op1: u8, op2: u8) {
     kani::assume(t < 2);
-    str_class(2, which, t, [op1, op2, 0], 2);
+    str_class(2, which, t, 1, [op1, op2, 0], 2);
 }
 #[cfg(kani)]
 #[kani::proof]
@@ -830,30 +833,32 @@ fn slice_ops(ctor: u8, len: usize, ops: [u8; 3], nops: usize) {
     // the borrowed source and the Arc are gone as well: every element ever made has been dropped exactly once
     assert!(d_dropped_total() == d_made(), "every element is dropped exactly once");
 }
-fn slice_len(ctor: u8, len: usize, ops: [u8; 3], nops: usize) {
+/// `set` is a literal per harness (0: only 3 elements, 1: 0 or 1 element, 2: all, 3: only 0, 4: only 1), see str_content
+fn slice_len(ctor: u8, len: usize, set: u8, ops: [u8; 3], nops: usize) {
     match len {
-        0 => slice_ops(ctor, 0, ops, nops),
-        1 => slice_ops(ctor, 1, ops, nops),
-        _ => slice_ops(ctor, 3, ops, nops),
+        0 if set == 1 || set == 2 || set == 3 => slice_ops(ctor, 0, ops, nops),
+        1 if set == 1 || set == 2 || set == 4 => slice_ops(ctor, 1, ops, nops),
+        3 if set == 0 || set == 2 => slice_ops(ctor, 3, ops, nops),
+        _ => kani::assume(false),
     }
 }
 // construction class is fixed per harness (0 = borrowed ctors 0..1, 1 = owned ctors 2..3, 2 = shared ctors 4..5)
-fn slice_class(class: u8, which: u8, len: usize, ops: [u8; 3], nops: usize) {
+fn slice_class(class: u8, which: u8, len: usize, set: u8, ops: [u8; 3], nops: usize) {
     kani::assume((len <= 1 || len == 3) && which < 2 && ops[0] < NOPS && ops[1] < NOPS && ops[2] < NOPS);
     match (class, which) {
-        (0, 0) => slice_len(0, len, ops, nops),
-        (0, _) => slice_len(1, len, ops, nops),
-        (1, 0) => slice_len(2, len, ops, nops),
-        (1, _) => slice_len(3, len, ops, nops),
-        (_, 0) => slice_len(4, len, ops, nops),
-        (_, _) => slice_len(5, len, ops, nops),
+        (0, 0) => slice_len(0, len, set, ops, nops),
+        (0, _) => slice_len(1, len, set, ops, nops),
+        (1, 0) => slice_len(2, len, set, ops, nops),
+        (1, _) => slice_len(3, len, set, ops, nops),
+        (_, 0) => slice_len(4, len, set, ops, nops),
+        (_, _) => slice_len(5, len, set, ops, nops),
     }
 }
 
 /// construct + read through every observer + drop, for every constructor and length (no intermediate operations)
 pub fn c14_slice_read_body(ctor: u8, len: usize) {
     kani::assume(ctor < 6);
-    slice_class(ctor / 2, ctor % 2, len, [0, 0, 0], 0);
+    slice_class(ctor / 2, ctor % 2, len, 2, [0, 0, 0], 0);
     kani::cover!(ctor == 5 && len == 3);
     kani::cover!(ctor == 3 && len == 0); // empty owned Vec: capacity 0, stored with the borrowed kind
 }
@@ -866,7 +871,7 @@ fn c14_slice_read() {
 
 // quick: 3 elements, all 16 two-step sequences; thorough (`_all`): also 0 and 1 element
 pub fn c14_slice_borrowed_body(which: u8, op1: u8, op2: u8) {
-    slice_class(0, which, 3, [op1, op2, 0], 2);
+    slice_class(0, which, 3, 0, [op1, op2, 0], 2);
 }
 #[cfg(kani)]
 #[kani::proof]
@@ -875,7 +880,7 @@ fn c14_slice_borrowed() {
     c14_slice_borrowed_body(kani::any(), kani::any(), kani::any());
 }
 pub fn c14_slice_borrowed_3ops_body(which: u8, op1: u8, op2: u8, op3: u8) {
-    slice_class(0, which, 3, [op1, op2, op3], 3);
+    slice_class(0, which, 3, 0, [op1, op2, op3], 3);
 }
 #[cfg(kani)]
 #[kani::proof]
@@ -886,7 +891,7 @@ fn c14_slice_borrowed_3ops() {
 
 pub fn c14_slice_borrowed_all_body(which: u8, len: usize, op1: u8, op2: u8) {
     kani::assume(len < 2);
-    slice_class(0, which, len, [op1, op2, 0], 2);
+    slice_class(0, which, len, 1, [op1, op2, 0], 2);
 }
 #[cfg(kani)]
 #[kani::proof]
@@ -897,7 +902,7 @@ fn c14_slice_borrowed_all() {
 
 // quick: 3 elements, all 16 two-step sequences; thorough (`_all`): also 0 and 1 element
 pub fn c14_slice_owned_body(which: u8, op1: u8, op2: u8) {
-    slice_class(1, which, 3, [op1, op2, 0], 2);
+    slice_class(1, which, 3, 0, [op1, op2, 0], 2);
 }
 #[cfg(kani)]
 #[kani::proof]
@@ -906,7 +911,7 @@ fn c14_slice_owned() {
     c14_slice_owned_body(kani::any(), kani::any(), kani::any());
 }
 pub fn c14_slice_owned_3ops_body(which: u8, op1: u8, op2: u8, op3: u8) {
-    slice_class(1, which, 3, [op1, op2, op3], 3);
+    slice_class(1, which, 3, 0, [op1, op2, op3], 3);
 }
 #[cfg(kani)]
 #[kani::proof]
@@ -917,7 +922,7 @@ fn c14_slice_owned_3ops() {
 
 pub fn c14_slice_owned_all_body(which: u8, len: usize, op1: u8, op2: u8) {
     kani::assume(len < 2);
-    slice_class(1, which, len, [op1, op2, 0], 2);
+    slice_class(1, which, len, 1, [op1, op2, 0], 2);
 }
 #[cfg(kani)]
 #[kani::proof]
@@ -928,7 +933,7 @@ fn c14_slice_owned_all() {
 
 // quick: 3 elements, all 16 two-step sequences; thorough (`_all`): also 0 and 1 element
 pub fn c14_slice_shared_body(which: u8, op1: u8, op2: u8) {
-    slice_class(2, which, 3, [op1, op2, 0], 2);
+    slice_class(2, which, 3, 0, [op1, op2, 0], 2);
 }
 #[cfg(kani)]
 #[kani::proof]
@@ -937,7 +942,7 @@ fn c14_slice_shared() {
     c14_slice_shared_body(kani::any(), kani::any(), kani::any());
 }
 pub fn c14_slice_shared_3ops_body(which: u8, op1: u8, op2: u8, op3: u8) {
-    slice_class(2, which, 3, [op1, op2, op3], 3);
+    slice_class(2, which, 3, 0, [op1, op2, op3], 3);
 }
 #[cfg(kani)]
 #[kani::proof]
@@ -946,15 +951,24 @@ fn c14_slice_shared_3ops() {
     c14_slice_shared_3ops_body(kani::any(), kani::any(), kani::any(), kani::any());
 }
 
-pub fn c14_slice_shared_all_body(which: u8, len: usize, op1: u8, op2: u8) {
-    kani::assume(len < 2);
-    slice_class(2, which, len, [op1, op2, 0], 2);
+// (0 and 1 element in one harness exceeded 12 GB for the shared class: one harness each)
+pub fn c14_slice_shared_all_body(which: u8, op1: u8, op2: u8) {
+    slice_class(2, which, 1, 4, [op1, op2, 0], 2);
 }
 #[cfg(kani)]
 #[kani::proof]
 #[kani::unwind(8)]
 fn c14_slice_shared_all() {
-    c14_slice_shared_all_body(kani::any(), kani::any(), kani::any(), kani::any());
+    c14_slice_shared_all_body(kani::any(), kani::any(), kani::any());
+}
+pub fn c14_slice_shared_empty_body(which: u8, op1: u8, op2: u8) {
+    slice_class(2, which, 0, 3, [op1, op2, 0], 2);
+}
+#[cfg(kani)]
+#[kani::proof]
+#[kani::unwind(8)]
+fn c14_slice_shared_empty() {
+    c14_slice_shared_empty_body(kani::any(), kani::any(), kani::any());
 }
 
 // Send / Sync: the `unsafe impl`s are bounded by T: Send / T: Sync; this only pins down that the two instantiations the
